@@ -248,7 +248,7 @@ package ctree
 // deletable, and the node reports itself deletable iff it was a deleted leaf or
 // ends up without children. Runs under the ROOT's write lock only.
 //@ func (*Tree).internalDelete
-//@   props C09 C10 C02 C12
+//@   props C09 C10 C02 C03 C12
 //@   requires t != nil && TreeWf() && condition != nil && f != nil
 //@   requires [node-lock-held C10] wheld(t.mu)
 //@   modifies ghost condCalls, ghost delCalls, mapheap(Kids(t))
